@@ -5,15 +5,21 @@
 (* State: NR registers (value mod p, magnitude, normalized) and the number *)
 (* of mutating operations still allowed ("fuel").  Next applies every      *)
 (* operation of FieldApi whose documented precondition holds, with every   *)
-(* choice of registers and of the small argument pools below; TLC thereby  *)
-(* enumerates all operation sequences up to the depth bound from the edge  *)
-(* start pool.  Every distinct state is emitted once (EmitState, an        *)
-(* invariant: TLC evaluates invariants on new states only) together with   *)
-(* ALL operations enabled in it and their specified effects; the runner    *)
-(* replays every one of these labelled transitions through the real        *)
-(* secp256k1_fe_* functions behind the state's shortest prefix, on every   *)
-(* build variant, and compares value / return value / magnitude /          *)
-(* normalized after every step.                                            *)
+(* choice of registers and of the small argument pools below.  Two ways of *)
+(* exploring it (chosen by the cfg):                                       *)
+(*  * bounded  (VIEW view, Bounded = TRUE): all operation sequences up to  *)
+(*    the depth bound from every value of the edge start pool; states are  *)
+(*    identified by the register contents (values included);               *)
+(*  * magnitude-complete (VIEW absview, Bounded = FALSE): no depth bound;  *)
+(*    states are identified by the (magnitude, normalized) pairs of the    *)
+(*    registers only, so TLC explores the WHOLE magnitude calculus 0..32   *)
+(*    of the header (a finite space) while carrying concrete values.       *)
+(* Every distinct state is emitted once (EmitState, an invariant: TLC      *)
+(* evaluates invariants on new states only) with the path that led to it   *)
+(* and ALL operations enabled in it with their specified effects; the      *)
+(* runner replays every one of these labelled transitions through the real *)
+(* secp256k1_fe_* functions behind that path, on every build variant, and  *)
+(* compares value / return value / magnitude / normalized after every step.*)
 (***************************************************************************)
 EXTENDS FieldApi, CurveParams, Verif, FiniteSets
 
@@ -21,6 +27,8 @@ CONSTANTS NR,          \* number of registers (2 or 3)
           DeepFuel,    \* depth bound for the first NDeep start values
           ShallowFuel, \* depth bound for the other start values
           NDeep,
+          MaxStart,    \* number of start values used (capped by the pool; the quick tier additionally caps at 16)
+          Bounded,     \* TRUE: fuel is consumed (depth bound); FALSE: magnitude-complete exploration (use VIEW absview)
           Symmetric    \* TRUE: every register is a full accumulator; FALSE: only register 0 is, the others are operands
 Regs == 0..(NR-1)
 
@@ -37,7 +45,8 @@ HalfP == Shr(P, 1)
 StartPool == << Sub(P, One), Max256, P, FromBytesBE(Rnd32(501)), Zero, One, Sub(P, Two), HalfP, Add(HalfP, One), TwoTo(255),
                 Alt52a, Alt52b, Alt26(0), Alt26(1), Add(P, One), Sub(TwoTo(256), TwoTo(32)), Ones(0, 52), Ones(52, 256), TwoTo(52), TwoTo(26),
                 Sub(TwoTo(208), One), FromBytesBE(Rnd32(502)) >>
-NStart == IF EnvNat("VERIF_THOROUGH") = 1 THEN Len(StartPool) ELSE 16
+Min2(a, b) == IF a <= b THEN a ELSE b
+NStart == Min2(MaxStart, IF EnvNat("VERIF_THOROUGH") = 1 THEN Len(StartPool) ELSE 16)
 Companion == << FromBytesBE(Rnd32(503)), Sub(P, Two), Alt26(1) >>     \* start patterns of registers 1, 2
 LoadPool == << ToBytesBE(Sub(P, One), 32), ToBytesBE(P, 32), ToBytesBE(Max256, 32), ToBytesBE(FromBytesBE(Rnd32(504)), 32) >>
 IntPool == {1, 32767}
@@ -68,21 +77,27 @@ MutOps(regs) == UNION { IF Symmetric \/ r = 0 THEN AccOps(regs, r) ELSE OperandO
 EnabledMut(regs) == { op \in MutOps(regs) : FePre(regs, op) }
 EnabledPred(regs) == { op \in PredOps(regs) : FePre(regs, op) }
 
-VARIABLES regs, fuel, root
-vars == << regs, fuel, root >>
-view == << regs, fuel, root >>
+VARIABLES regs, fuel, root, path
+vars == << regs, fuel, root, path >>
+MagOf(rg) == [r \in Regs |-> << rg[r].m, rg[r].n >>]
+view    == << regs, fuel, IF path = << >> THEN root ELSE << >> >>
+absview == << MagOf(regs), root >>
 
 PatBytes(x) == ToBytesBE(x, 32)
 StartRegs(i) == [r \in Regs |-> FeLoadMod(PatBytes(IF r = 0 THEN StartPool[i] ELSE Companion[r]))]
+RegOut(x) == << x.v, x.m, x.n >>
+EdgeOut(rg, op) == LET e == FeEffect(rg, op) IN << op, e.w, RegOut(e.reg), e.ret, e.bytes >>
 Init == \E i \in 1..NStart :
           /\ regs = StartRegs(i)
           /\ fuel = IF i <= NDeep THEN DeepFuel ELSE ShallowFuel
           /\ root = << PatBytes(StartPool[i]) >> \o [r \in 1..(NR-1) |-> PatBytes(Companion[r])]
+          /\ path = << >>
 Next == /\ fuel > 0
         /\ \E op \in EnabledMut(regs) :
               /\ regs' = FeApply(regs, FeEffect(regs, op))
-              /\ fuel' = fuel - 1
-              /\ root' = << >>
+              /\ fuel' = IF Bounded THEN fuel - 1 ELSE fuel
+              /\ path' = Append(path, EdgeOut(regs, op))
+              /\ root' = root
 Spec == Init /\ [][Next]_vars
 
 \* ---- design-level invariants ---------------------------------------------------------------
@@ -90,11 +105,9 @@ TypeOK == \A r \in Regs : FeWellFormed(regs[r])
 \* every effect offered in this state satisfies the algebraic post-conditions of the header
 EffectsSound == fuel > 0 => \A op \in EnabledMut(regs) : FeEffectSound(regs, op, FeEffect(regs, op))
 
-\* ---- emission: one line per distinct state with every enabled operation and its specified effect ----
-RegOut(x) == << x.v, x.m, x.n >>
-EdgeOut(op) == LET e == FeEffect(regs, op) IN << op, e.w, RegOut(e.reg), e.ret, e.bytes >>
+\* ---- emission: one line per distinct state with its path and every enabled operation with its specified effect ----
 EmitState == fuel > 0 =>
-  AppendLine(ToJson([ s |-> [r \in Regs |-> RegOut(regs[r])], f |-> fuel, root |-> root,
-                      mut |-> { EdgeOut(op) : op \in EnabledMut(regs) },
-                      prd |-> { EdgeOut(op) : op \in EnabledPred(regs) } ]), IOEnv.GEN_OUT)
+  AppendLine(ToJson([ s |-> [r \in Regs |-> RegOut(regs[r])], f |-> fuel, root |-> root, path |-> path,
+                      mut |-> { EdgeOut(regs, op) : op \in EnabledMut(regs) },
+                      prd |-> { EdgeOut(regs, op) : op \in EnabledPred(regs) } ]), IOEnv.GEN_OUT)
 =============================================================================
